@@ -33,9 +33,10 @@ BOX = (-1, 2, Fraction(1, 2))
 
 KEYS = [("name", "x"), ("var", "x"), ("name", "y"), ("var", "y"), ("node", A0), ("node", AX),
         ("node", OA)]
-VALUES = [Y, X, Sum(X, C(1)), C(2), Prod(Y, A0), OA, AX]
+# replacements include falsy ones: the constants 0 / False and a product with a zero factor
+VALUES = [Y, X, Sum(X, C(1)), C(2), Prod(Y, A0), OA, AX, C(0), C(False), Prod(C(0), Y)]
 KEYS_Q = [("name", "x"), ("var", "y"), ("node", AX), ("node", OA)]
-VALUES_Q = [Y, X, Sum(X, C(1)), Prod(Y, A0)]
+VALUES_Q = [Y, X, Sum(X, C(1)), Prod(Y, A0), C(0), Prod(C(0), Y)]
 PAIR_VALUES_Q = [Y, X]
 
 
@@ -224,8 +225,8 @@ def check(spec, sigma, r=None, forms=FORMS):
             env.update(zip(free, vals))
             got = refsem.outcome(refsem.evaluate, rs_eval, dict(env))
             ref = refsem.outcome(refsem.evaluate, want, dict(env))
-            if refsem.is_skip(ref):
-                continue
+            if refsem.is_skip(ref) or (ref[0] == "err" and ref[1] == "TypeError"):
+                continue        # too big / an environment that is ill-typed for this tree
             if only_vars:
                 # the statement's own formulation: original tree, replaced names rebound
                 env2 = dict(env)
@@ -282,6 +283,8 @@ class C08(Check):
         "independent simultaneous substitution on specs (outermost match first)",
         "one map never gives the same target twice (as name and as Variable)",
         "lists/arrays are not substituted into (memoizing mapper needs hashable input)",
+        "environments in which the reference evaluation raises TypeError are ill-typed for the tree "
+        "(~ of a Fraction) and say nothing",
         "during the substitution itself DeprecationWarnings are errors (as under python -W error): "
         "the inputs are modern, hashable nodes, so any such warning comes from the library's own "
         "rebuilding of nodes",
